@@ -35,6 +35,10 @@ pub struct GenerationCache {
     events_hash: String,
     /// Combined hash for quick comparison
     combined_hash: String,
+    /// Names of the files written by the run that saved this cache; the cache only vouches
+    /// for an output directory that still contains all of them
+    #[serde(default)]
+    generated_files: Vec<String>,
 }
 
 impl GenerationCache {
@@ -71,7 +75,14 @@ impl GenerationCache {
             config_hash,
             events_hash,
             combined_hash,
+            generated_files: Vec::new(),
         })
+    }
+
+    /// Record the files written by this generation run
+    pub fn with_generated_files(mut self, files: &[String]) -> Self {
+        self.generated_files = files.to_vec();
+        self
     }
 
     /// Load cache from file
@@ -135,6 +146,15 @@ impl GenerationCache {
 
         // Check version compatibility
         if previous_cache.version != Self::CURRENT_VERSION {
+            return Ok(true);
+        }
+
+        // A generated file that has gone missing must be written again
+        if previous_cache
+            .generated_files
+            .iter()
+            .any(|name| !output_dir.as_ref().join(name).is_file())
+        {
             return Ok(true);
         }
 
